@@ -255,7 +255,7 @@ PROBES = {
     'C02': ['structures', 'headers', 'roundtrip', 'messages'], 'C03': ['structures'], 'C04': ['structures'], 'C05': ['structures'], 'C06': ['structures'],
     'C08': ['headers'], 'C12': ['headers', 'keys', 'claims'], 'C09': ['framing', 'headers', 'roundtrip', 'messages'], 'C13': ['framing'], 'C14': ['framing'],
     'C15': ['integers'], 'C16': ['order'], 'C17': ['claims', 'keys', 'headers'], 'C20': ['order'],
-    'C10': ['keys'], 'C18': ['claims', 'integers'], 'C19': ['builders'], 'C07': ['roundtrip', 'messages'], 'C11': ['roundtrip'], 'C01': ['roundtrip', 'framing', 'headers', 'keys', 'claims', 'integers', 'structures', 'builders', 'order', 'messages'],
+    'C10': ['keys'], 'C18': ['claims', 'integers'], 'C19': ['builders'], 'C07': ['roundtrip', 'messages'], 'C11': ['roundtrip', 'messages'], 'C01': ['roundtrip', 'framing', 'headers', 'keys', 'claims', 'integers', 'structures', 'builders', 'order', 'messages'],
 }
 
 # users of the core functions that the property statements cover as well
